@@ -2,7 +2,7 @@
    implementation responses.  Mismatch tags: "S:" = an observable the property itself
    determines (status class, S3 code, body, ETag, listing contents) — a spec failure;
    "M:" = an ancillary observable only the model fixes (header presence etc.). *)
-From GF Require Import Base.Lit Base.Int64 Model.Mem Model.Handlers Model.Uploader Model.Chunk Model.MemVersions Model.PutPath Model.MemWalk Model.CrashDirs Model.FsList Extract.Checks.
+From GF Require Import Base.Lit Base.Int64 Model.Mem Model.Handlers Model.Uploader Model.Chunk Model.MemVersions Model.PutPath Model.MemWalk Model.CrashDirs Model.FsList Model.FsPut Extract.Checks.
 Open Scope string_scope.
 Open Scope list_scope.
 Open Scope Z_scope.
@@ -160,10 +160,35 @@ Definition check_vid (t : list (N * list N)) (exp : option N) (ob : obs) : list 
       end
   end.
 
+(* The filesystem backends cannot hold every key: an upload (PUT, copy destination) whose key is not a
+   clean path, is a directory of stored keys or lies below a stored object is refused with
+   InvalidArgument and changes nothing (Model/FsPut.v fs_put_refused, proved to be exactly the keys a
+   directory tree cannot take: Properties/C10_fs.v). The bucket a refused first use made stays. *)
+Definition fs_refuses (c : config) (hs : hstate) (o : hop) : option state :=
+  if hs_fs hs then
+    match o with
+    | HPut b k _ _ | HCopy _ _ b k _ =>
+        match ensure_bucket c (hs_model hs) b with
+        | (s1, None) =>
+            match get_bucket s1 b with
+            | Some bk => match fs_put_refused (live_keys (b_objs bk)) k with Some _ => Some s1 | None => None end
+            | None => None
+            end
+        | _ => None
+        end
+    | _ => None
+    end
+  else None.
+
 Definition obj_step (md5 : list N -> list N) (c : config) (hs : hstate) (o : hop) (ob : obs)
   : hstate * list (list N) :=
   let t := hs_tbl hs in
-  let '(s', r) := step c (hs_model hs) (to_op t o) in
+  let '(s0, r0) := step c (hs_model hs) (to_op t o) in
+  let '(s', r) := match r0, fs_refuses c hs o with
+                  | RErr _, _ => (s0, r0)            (* refused before the backend is asked to store *)
+                  | _, Some s1 => (s1, RErr EInvalidArgument)
+                  | _, None => (s0, r0)
+                  end in
   let mk t' := {| hs_model := s'; hs_tbl := t'; hs_up := hs_up hs; hs_utbl := hs_utbl hs; hs_fs := hs_fs hs |} in
   match r with
   | RErr e => (mk t, exp_err e ob (is_head_op o))
